@@ -313,6 +313,19 @@ def run_mapping(case):
     pre = case.get('pre', 0)
     if pre:
         F.update_variable_number(pre)
+    for e in case.get('earlier', []):
+        # other mappings of the same formula, created and constrained before the one under test
+        if e['kind'] == 'unary':
+            g = F.new_mapping(e['n'], e['m'])
+        elif e['kind'] == 'binary':
+            g = F.new_binary_mapping(e['n'], e['m'])
+        else:
+            B0 = BipartiteGraph(e['n'], e['m'])
+            for u, v in e.get('edges', []):
+                B0.add_edge(u, v)
+            g = F.new_sparse_mapping(B0)
+        if e.get('force'):
+            getattr(F, 'force_{}_mapping'.format(e['force']))(g)
     if kind == 'unary':
         n, m = case['n'], case['m']
         f = F.new_mapping(n, m)
@@ -433,11 +446,48 @@ def run_mapping(case):
         labels.append('zero-bits')
     if n == 0 or m == 0:
         labels.append('empty-side')
+    if case.get('earlier'):
+        labels.append('after-other-mappings')
+        if len(list(f)) == 0 and any(_mapping_size(e) == 0 and e.get('force') == force for e in case['earlier']):
+            labels.append('second-mapping-without-variables')
     return Outcome(labels=labels, nontrivial=n >= 2 and m >= 2)
+
+
+def _mapping_size(e):
+    if e['kind'] == 'unary':
+        return e['n'] * e['m']
+    if e['kind'] == 'binary':
+        return e['n'] * ((e['m'] - 1).bit_length() if e['m'] > 1 else 0)
+    return len(e.get('edges', []))
+
+
+_DEGENERATE = [{'kind': 'binary', 'n': 1, 'm': 1}, {'kind': 'binary', 'n': 2, 'm': 1}, {'kind': 'binary', 'n': 0, 'm': 4}, {'kind': 'binary', 'n': 3, 'm': 0},
+               {'kind': 'unary', 'n': 0, 'm': 3}, {'kind': 'unary', 'n': 2, 'm': 0}, {'kind': 'unary', 'n': 0, 'm': 0},
+               {'kind': 'sparse', 'n': 1, 'm': 2, 'edges': []}, {'kind': 'sparse', 'n': 2, 'm': 1, 'edges': []}, {'kind': 'sparse', 'n': 0, 'm': 0, 'edges': []}]
+_SMALL = [{'kind': 'binary', 'n': 2, 'm': 2}, {'kind': 'unary', 'n': 2, 'm': 2}, {'kind': 'sparse', 'n': 2, 'm': 2, 'edges': [[1, 1], [2, 1], [2, 2]]}]
 
 
 def enum_mapping(tier):
     maxn = 3
+    # several mappings in one formula, those without variables included: each force call speaks about its own mapping
+    k = 0
+    for clsname in ('CNF', 'OPB'):
+        for force in FORCES:
+            for main in _DEGENERATE + _SMALL:
+                if main['kind'] == 'binary' and force == 'surjective':
+                    continue
+                for first in _DEGENERATE + _SMALL:
+                    k += 1
+                    if tier == 'quick' and first in _SMALL and main in _SMALL and k % 3:
+                        continue
+                    for f0 in ([force] if tier == 'quick' else [force, None, FORCES[(FORCES.index(force) + 1) % len(FORCES)]]):
+                        if first['kind'] == 'binary' and f0 == 'surjective':
+                            continue
+                        c = dict(main)
+                        c.update({'cls': clsname, 'force': force, 'pre': k % 2, 'earlier': [dict(first, force=f0)]})
+                        if k % 5 == 0:
+                            c['earlier'].append(dict(_DEGENERATE[k % len(_DEGENERATE)], force=None))
+                        yield c
     for clsname in ('CNF', 'OPB'):
         for force in FORCES:
             for n in range(0, 4):
@@ -479,6 +529,10 @@ def strat_mapping(draw):
         allp = [[u, v] for u in range(1, n + 1) for v in range(1, m + 1)]
         c['edges'] = draw(st.lists(st.sampled_from(allp), unique_by=tuple, max_size=len(allp))) if allp else []
         c['edges'].sort()
+    if n * m <= 6 and draw(st.integers(0, 2)) == 0:
+        c['pre'] = min(pre, 1)
+        c['earlier'] = [dict(e, force=draw(st.sampled_from([force, force, None] if not (e['kind'] == 'binary' and force == 'surjective') else [None])))
+                        for e in draw(st.lists(st.sampled_from(_DEGENERATE + _SMALL[:2]), min_size=1, max_size=2))]
     return c
 
 
@@ -495,8 +549,8 @@ SUBCHECKS = [
              required_labels=['negative-coefficient', 'op<', 'op>', 'op<=', 'op==', 'op>=', 'no-terms']),
     SubCheck('mapping', run_mapping, strategy=strat_mapping, enumerate_cases=enum_mapping,
              quick=600, thorough=20000,
-             rule="new_mapping(n,m) n<=3,m<=4; new_binary_mapping n<=4,m<=8; every sparse mapping on <=2x2 (thorough 3x3) bipartite graphs; one force_* call each, CNF and OPB; oracle: relation decoded via to_index, functional condition evaluated on all assignments (binary mappings: equality on the assignments where every image is a legal value, and no accepted assignment may contain two elements whose legal images coincide / decrease, whatever the others are); non-trivial: n>=2 and m>=2",
-             required_labels=['unary', 'sparse', 'binary', 'm-not-power-of-two', 'zero-bits', 'empty-side'] + FORCES),
+             rule="new_mapping(n,m) n<=3,m<=4; new_binary_mapping n<=4,m<=8; every sparse mapping on <=2x2 (thorough 3x3) bipartite graphs; one force_* call each, CNF and OPB; also as the second or third mapping of a formula whose earlier mappings (ten shapes without any variable - binary mappings into 0 or 1 values, unary mappings with an empty side, sparse mappings without edges - and three small ones) were created and constrained first, the rows added by the last force call being judged; oracle: relation decoded via to_index, functional condition evaluated on all assignments (binary mappings: equality on the assignments where every image is a legal value, and no accepted assignment may contain two elements whose legal images coincide / decrease, whatever the others are); non-trivial: n>=2 and m>=2",
+             required_labels=['unary', 'sparse', 'binary', 'm-not-power-of-two', 'zero-bits', 'empty-side', 'after-other-mappings', 'second-mapping-without-variables'] + FORCES),
 ]
 
 
